@@ -212,6 +212,7 @@ func (fr *frame) opaque(key string, c *ssa.CallCommon, args []SV, cur *State, rt
 	na := vc.fresh("alloc", "Int")
 	vc.assume(le(cur.alloc, na))
 	cur.alloc = na
+	fr.flushWF(na)
 	if tup, ok := rtyp.(*types.Tuple); ok && tup.Len() == 0 {
 		return SV{t: "0", typ: rtyp}
 	}
@@ -237,13 +238,19 @@ func (fr *frame) havocReferent(a SV, cur *State) {
 			return
 		}
 		l := vc.locOf(a)
-		vc.storeLoc(cur, l, vc.fresh("hv", vc.sortOf(u.Elem())))
+		c := vc.fresh("hv", vc.sortOf(u.Elem()))
+		vc.storeLoc(cur, l, c)
+		if l.Idx == "" && len(l.Path) == 0 {
+			fr.pendingCell = append(fr.pendingCell, [2]string{c, l.Heap})
+		}
 	case *types.Slice:
 		if vc.sortOf(a.typ) != "Slice" {
 			return
 		}
 		h := vc.arrHeap(u.Elem())
-		vc.heapSet(cur, h, sto(vc.heapGet(cur, h), app("s_ref", a.t), vc.fresh("hv", "(Array Int "+vc.sortOf(u.Elem())+")")))
+		c := vc.fresh("hv", "(Array Int "+vc.sortOf(u.Elem())+")")
+		vc.heapSet(cur, h, sto(vc.heapGet(cur, h), app("s_ref", a.t), c))
+		fr.pendingCell = append(fr.pendingCell, [2]string{c, h})
 	}
 }
 
@@ -293,6 +300,11 @@ func (fr *frame) applyContract(con *Contract, key string, args []SV, cur *State,
 			vc.oblige("pre", fmt.Sprintf("%s.pre%d", tag, i), fr.g, vc.evalBool(cl.Expr, env))
 		}
 	}
+	for _, inv := range vc.eng.invariantsOf(con) {
+		ienv := *env
+		ienv.pkg = vc.eng.typesPkg[inv.Pkg]
+		vc.oblige("pre", fmt.Sprintf("%s.inv.%s", tag, inv.Name), fr.g, vc.evalBool(inv.Expr, &ienv))
+	}
 	// declared panics
 	var noPanic []T
 	for _, cl := range con.Clauses {
@@ -321,6 +333,7 @@ func (fr *frame) applyContract(con *Contract, key string, args []SV, cur *State,
 	na := vc.fresh("alloc", "Int")
 	vc.assume(le(cur.alloc, na))
 	cur.alloc = na
+	fr.flushWF(na)
 	// results
 	post := &SpecEnv{vc: vc, vars: map[string]SV{}, cur: cur, old: pre, pkg: env.pkg, mode: vc.mode}
 	for k, v := range env.vars {
@@ -345,6 +358,11 @@ func (fr *frame) applyContract(con *Contract, key string, args []SV, cur *State,
 		if cl.Kind == "ensures" {
 			vc.assume(implies(fr.g, vc.evalBool(cl.Expr, post)))
 		}
+	}
+	for _, inv := range vc.eng.invariantsOf(con) {
+		ienv := *post
+		ienv.pkg = vc.eng.typesPkg[inv.Pkg]
+		vc.assume(implies(fr.g, vc.evalBool(inv.Expr, &ienv)))
 	}
 	fr.nameHeaps(cur)
 	if rts == nil {
